@@ -1,5 +1,6 @@
 import Sif.Driver.Util
 import Sif.Spec.C11
+import Sif.Spec.C20
 import Sif.Generated.DispConsts
 /-
   Driver side of family `disp` (C11): threads the model chain through the operation lines and
@@ -156,6 +157,10 @@ def handleDisp (st : DispSt) : List String → Option (DispSt × String)
       let post ← parseStore (← stripPrefix "post=" post)
       let deltas ← parseAddrCoins (← stripPrefix "deltas=" deltas)
       some (st, toString (runObsOK m pre post deltas ds))
+  | ["chk", "c20.txsupply", _tag, before, after] => do
+      let b ← (parseList before ",").mapM parseNat
+      let a ← (parseList after ",").mapM parseNat
+      some (st, toString (Sif.Spec.C20.txSupplyOK b a))
   | ["chk", "c11.claims", _tag, claims, paidRecs] => do
       let claims := (parseList ((← stripPrefix "claims=" claims)) ";").map fun k => (k.toList, ())
       let paid ← parseStore (← stripPrefix "paid=" paidRecs)
